@@ -170,6 +170,10 @@ def run(tier: str, seed: int) -> int:
                     continue
                 if img != model:
                     res.mismatches.append({"op": "mpi.generate", "request": req, "impl": img, "model": model})
+                if len(img["ok"]) == 1:
+                    # validation of the writer model behind C12_record_file (counted in the evidence, not a verdict: the property is judged on the image)
+                    wt = drv.call({"op": "ihex.write", "address": img["ok"][0][0], "data": img["ok"][0][1]})
+                    res.count("writer-model:" + ("same-text" if wt.get("ok") == impl["ok"] else "other-text"))
                 if size >= 48:
                     chk = drv.call({**req, "op": "mpi.check_record", "img": img["ok"]})
                     if not chk["ok"]:
